@@ -62,6 +62,10 @@ pub fn pump_polling(cfg: &Cfg, rep: &mut Report, timeout: u64, stream: usize) {
         vec![m, tk, p, m2, tk, p],
         vec![m, i],
         vec![l, tk, p],
+        vec![m, Ev::Tick(hostile_ticks(t / 2)[0]), p],
+        vec![m, Ev::Tick(hostile_ticks(t / 2)[1]), p],
+        vec![m, Ev::Tick(hostile_ticks(t / 2)[2]), p],
+        vec![m, Ev::Tick(hostile_ticks(t / 2)[3]), p],
     ];
     if cfg.thorough && cfg.release && !cfg.as_c18 {
         pump(cfg, rep, &starts, &cycles_upto2(&syms, &units), 2_000, &tail, true);
@@ -83,13 +87,19 @@ pub fn random_poll_histories(cfg: &Cfg, rep: &mut Report, total: u64, stream: u6
         let mut with_report = 0u64;
         while done < per {
             let len = rng.range(5, 200);
-            let timeout = *rng.pick(&[0u64, 1, T2, T2, 5 * TICK, T_INF]);
+            let timeout = *rng.pick(&[0u64, 1, T2, T2, 5 * TICK, T_INF, 10_000_000, 900_000_000, ONE_S, 1_500_000_000, ONE_H]);
             let t = if timeout == T_INF { 7 * TICK } else { timeout };
-            let ticks: Vec<u64> = if timing_focus {
+            let mut ticks: Vec<u64> = if timing_focus {
                 vec![t.saturating_sub(1), t, t + 1, 1, t / 2, t.saturating_sub(1), t]
             } else {
                 vec![1, t / 2, t.saturating_sub(1), t, t + 1, 3 * t + 5]
             };
+            if rng.chance(1, 2) {
+                // steps just past 2^32 ns, 1 s, 2^32 us, 1 h (offset below the timeout)
+                let h = rng.below(t.max(1));
+                ticks.extend_from_slice(&hostile_ticks(h));
+                ticks.push(hostile_ticks(h)[rng.below(4) as usize] - h.min(1) - 1);
+            }
             let nvalues = *rng.pick(&[2u8, 3, 4, 128, 200, 200]);
             let chans = *rng.pick(&[1u8, 1, 2, 3, 16]);
             let mut mon = PollMon::new(timeout);
@@ -244,6 +254,31 @@ pub fn run_templates(base: &PollMon, c: u8, prefix: &[String], rep: &mut Report)
             rep,
         );
         rep.count("templates_late", 1);
+        // the same late poll after clock steps just past 2^32 ns, 1 s, 2^32 us, 1 h
+        for hstep in hostile_ticks(t / 2) {
+            run(
+                &[
+                    (sel[0], None, ""),
+                    (sel[1], Some([None, None]), "second number byte reports nothing"),
+                    (m, Some([None, None]), "lone MSB reports nothing at first"),
+                    (Ev::Tick(hstep), None, ""),
+                    (Ev::Poll(c), Some([Some(seven), None]), "poll long after the deadline (clock step past a representation boundary) reports the MSB"),
+                ],
+                rep,
+            );
+            run(
+                &[
+                    (sel[0], None, ""),
+                    (sel[1], None, ""),
+                    (l, Some([None, None]), "unpaired LSB reports nothing"),
+                    (Ev::Tick(hstep), None, ""),
+                    (Ev::Poll(c), Some([None, None]), "late poll with unpaired LSB reports nothing"),
+                    (m, Some([None, None]), "MSB after an LSB dropped long after its deadline is not completed to 14-bit"),
+                ],
+                rep,
+            );
+        }
+        rep.count("templates_hostile_clock_steps", 1);
     }
     if t > 0 {
         let early = if t == T_INF { 1u64 << 50 } else { t - 1 };
@@ -323,7 +358,7 @@ fn metamorphic(cfg: &Cfg, rep: &mut Report, total: u64) {
             };
             let base = runit(timeout, 0, 1, rep);
             let shifted = runit(timeout, 1 << 45, 1, rep);
-            let scaled = runit(timeout, 0, 1000, rep);
+            let scaled = runit(timeout, 0, *rng.pick(&[1000u64, 750_000, 450_000_000]), rep);
             if base != shifted || base != scaled {
                 let which = if base != shifted { "epoch-shift" } else { "time-scale" };
                 crate::viol!(rep, 
@@ -578,7 +613,8 @@ fn play(
         if t == 0 {
             *rng.pick(&[0u64, 1, 500])
         } else {
-            *rng.pick(&[t, t + 1, 3 * t])
+            let hs = hostile_ticks(t / 2);
+            *rng.pick(&[t, t + 1, 3 * t, t, t + 1, hs[0], hs[1], hs[2], hs[3]])
         }
     };
     macro_rules! apply {
